@@ -18,7 +18,7 @@ pub fn registry(property: &str) -> Option<CheckSpec> {
             level: "exploration",
             parts: vec![
                 // wall caps are a safety net only (a loaded 16-thread machine needs ~140 s for the quick batch, an idle one ~20 s)
-                Part::with_cap(sim::CompetitionSim, 150_000, 2_000_000, (300, 2400)),
+                Part::with_cap(sim::CompetitionSim, 150_000, 1_500_000, (300, 2400)),
                 Part::new(real::CompetitionReal, 2_000, 40_000),
             ],
             assumptions: vec![
